@@ -219,12 +219,14 @@ Definition recv_reset (sid reason : N) (queued : bool) (s : state) : state * res
 Definition handle_error (e : perror) (s : state) : state * res :=
   match s with
   | Closed _ => (s, RUnit)
+  | HalfClosedRemote _ => (Closed (ErrorAfterEndStream e), RUnit)   (* the peer's message was complete *)
   | _ => (Closed (CError e), RUnit)
   end.
 
 Definition recv_eof (s : state) : state * res :=
   match s with
   | Closed _ => (s, RUnit)
+  | HalfClosedRemote _ => (Closed (ErrorAfterEndStream eof_error), RUnit)
   | _ => (Closed (CError eof_error), RUnit)
   end.
 
